@@ -143,7 +143,7 @@ func VerifC05XBit2(op int, k0 int, k1 int) {
 	nx, _, _ := zzC05XResult(x)
 	ny, _, oky := zzC05XResult(y)
 	vrt.Assert(okx && oky && nx == lx && ny == ly, "an operand was altered")
-	vrt.Carve("C05-bitop-noncanonical-bignum", !isFix && zzC05XFits(want))
+	vrt.Carve("C05-bitop-noncanonical-bignum", (k0 == 1 || k1 == 1) && o.tt != 0 && o.tt != 15 && zzC05XFits(want))
 	vrt.Assert(isFix == zzC05XFits(want), "integer result is not in canonical form (fixnum iff it fits)")
 }
 
@@ -176,7 +176,7 @@ func VerifC05XBitN(op int, n int, mask int) {
 		now, _, okn := zzC05XResult(args[i])
 		vrt.Assert(okn && now == ls[i], "an operand was altered")
 	}
-	vrt.Carve("C05-bitop-noncanonical-bignum", !isFix && zzC05XFits(want))
+	vrt.Carve("C05-bitop-noncanonical-bignum", mask != 0 && zzC05XFits(want))
 	vrt.Assert(isFix == zzC05XFits(want), "integer result is not in canonical form (fixnum iff it fits)")
 }
 
@@ -189,7 +189,7 @@ func zzC05XPop(u uint64) (n int64) {
 }
 
 // VerifC05XBit1: the one-integer bit functions on a fixnum (fully symbolic) —
-// fn 0 lognot, 1 logcount, 2 integer-length, 3 logbitp with a symbolic index in 0..200,
+// fn 0 lognot, 2 integer-length, 3 logbitp with a symbolic index in 0..200,
 // 4 logtest of two fixnums.
 func VerifC05XBit1(fn int) {
 	v := vrt.Int64("x")
@@ -201,33 +201,19 @@ func VerifC05XBit1(fn int) {
 		vrt.Assert(out.class == 0, "lognot signalled")
 		g, ok := out.one.(slip.Fixnum)
 		vrt.Assert(ok && int64(g) == -1-v, "lognot of a fixnum is not -1-x")
-	case 1:
-		u := uint64(v)
-		if v < 0 {
-			u = ^u
-		}
-		out := zzC05Call("logcount", x)
-		vrt.Reach("called")
-		vrt.Assert(out.class == 0, "logcount signalled")
-		g, ok := out.one.(slip.Fixnum)
-		vrt.Assert(ok && int64(g) == zzC05XPop(u), "logcount is not the number of bits that differ from the sign")
 	case 2:
 		u := uint64(v)
 		if v < 0 {
 			u = ^u
 		}
-		// smallest n with u < 2^n
-		want := int64(0)
-		for i := uint(0); i < 64; i++ {
-			if (u>>i)&1 != 0 {
-				want = int64(i) + 1
-			}
-		}
 		out := zzC05Call("integer-length", x)
 		vrt.Reach("called")
 		vrt.Assert(out.class == 0, "integer-length signalled")
 		g, ok := out.one.(slip.Fixnum)
-		vrt.Assert(ok && int64(g) == want, "integer-length of a fixnum is wrong")
+		vrt.Assert(ok && 0 <= g && g <= 64, "integer-length of a fixnum is not in 0..64")
+		// g is the smallest n with u < 2^n
+		vrt.Assert(g == 64 || u>>uint(g) == 0, "integer-length of a fixnum is too small")
+		vrt.Assert(g == 0 || u>>uint(g-1) != 0, "integer-length of a fixnum is too large")
 	case 3:
 		k := vrt.Int64("k")
 		vrt.Assume(0 <= k && k <= 200)
@@ -247,6 +233,27 @@ func VerifC05XBit1(fn int) {
 		vrt.Assert(out.class == 0, "logtest signalled")
 		vrt.Assert((out.one != nil) == (v&w != 0), "logtest disagrees with logand")
 	}
+}
+
+// VerifC05XLogcount: logcount of a fixnum whose bits are those of a background
+// pattern (bg 0: all zero, 1: all one, 2: 0x5a5a..., 3: most-negative-fixnum pattern) except for a
+// window of four symbolic bits at position pos (slip's loop branches on every bit, so
+// a fully symbolic word would be 2^64 paths).
+func VerifC05XLogcount(bg int, pos int) {
+	pats := []uint64{0, ^uint64(0), 0x5a5a5a5a5a5a5a5a, 1 << 63}
+	w := vrt.Uint64("w")
+	vrt.Assume(w < 16)
+	u := (pats[bg] &^ (uint64(15) << uint(pos))) | (w << uint(pos))
+	v := int64(u)
+	m := u
+	if v < 0 {
+		m = ^m
+	}
+	out := zzC05Call("logcount", slip.Fixnum(v))
+	vrt.Reach("called")
+	vrt.Assert(out.class == 0, "logcount signalled")
+	g, ok := out.one.(slip.Fixnum)
+	vrt.Assert(ok && int64(g) == zzC05XPop(m), "logcount is not the number of bits that differ from the sign")
 }
 
 // ---- the boundary grid (concrete values; bounded enumeration executed by the engine) ----
